@@ -1,3 +1,4 @@
+pub mod crumb;
 pub mod json;
 pub mod par;
 pub mod report;
